@@ -270,3 +270,90 @@ example : WellNested 0 [.opn, .str "a", .sep ":", .str "d", .cls] := by simp [We
 example : ¬ WellNested 0 [.cls] := by simp [WellNested]
 
 end Ucfg.C02
+
+namespace Ucfg.C02
+open Ucfg
+
+/-! ### the operator table (`${name:default}`, `${name:+alt}`, `${name:?msg}`), for a constant name
+
+Stated relative to what looking the name up does (`refEval` / `refResolve` at the fuel the operator gives it), on any
+cache: the operator adds exactly the documented choice and nothing else. -/
+
+/-- the path an operator with the constant name `nm` looks up -/
+def opPath (C : ECtx) (nm sep : String) : List Field :=
+  parsePath nm sep C.opts.maxIdx C.opts.enableNumKeys C.opts.escapePath
+
+theorem em_pure {α : Type} (a : α) (c : Cache) : (pure a : EM α) c = (.ok a, c) := rfl
+
+theorem const_eval (C : ECtx) (m : Nat) (home : Val) (active : List String) (nm : String) :
+    evalExpr C (m+1) home active (.const nm) = EM.pure nm := by
+  rw [evalExpr]; rfl
+
+/-- `${name:default}`: a name that resolves to non-empty text is that text -/
+theorem default_keeps_value (C : ECtx) (m : Nat) (home : Val) (active : List String) (nm sep : String) (r : Expr)
+    (c c1 : Cache) (v : String) (hnm : (nm == "") = false) (hv : (v == "") = false)
+    (h : refEval C (m+1) home active (opPath C nm sep) sep c = (.ok v, c1)) :
+    evalExpr C (m+2) home active (.dflt (.const nm) r sep) c = (.ok v, c1) := by
+  unfold opPath at h
+  rw [evalExpr]
+  simp only [const_eval, em_pure, bind, EM.bind, EM.attempt, EM.pure, hnm, Bool.false_eq_true, if_false, h, hv]
+
+/-- `${name:default}`: a name whose lookup fails gives the default (evaluated on the cache the attempt left) -/
+theorem default_used_when_lookup_fails (C : ECtx) (m : Nat) (home : Val) (active : List String) (nm sep : String) (r : Expr)
+    (c c1 : Cache) (e : Err) (hnm : (nm == "") = false)
+    (h : refEval C (m+1) home active (opPath C nm sep) sep c = (.err e, c1)) :
+    evalExpr C (m+2) home active (.dflt (.const nm) r sep) c = evalExpr C (m+1) home active r c1 := by
+  unfold opPath at h
+  rw [evalExpr]
+  simp only [const_eval, em_pure, bind, EM.bind, EM.attempt, EM.pure, hnm, Bool.false_eq_true, if_false, h]
+
+/-- `${name:default}`: a name that resolves to the empty string gives the default -/
+theorem default_used_when_empty (C : ECtx) (m : Nat) (home : Val) (active : List String) (nm sep : String) (r : Expr)
+    (c c1 : Cache) (hnm : (nm == "") = false)
+    (h : refEval C (m+1) home active (opPath C nm sep) sep c = (.ok "", c1)) :
+    evalExpr C (m+2) home active (.dflt (.const nm) r sep) c = evalExpr C (m+1) home active r c1 := by
+  unfold opPath at h
+  rw [evalExpr]
+  simp only [const_eval, em_pure, bind, EM.bind, EM.attempt, EM.pure, hnm, Bool.false_eq_true, if_false, h, beq_self_eq_true, if_true]
+
+/-- `${name:+alt}`: when the name is set (its lookup finds something) the alternative is evaluated ... -/
+theorem alternative_when_set (C : ECtx) (m : Nat) (home : Val) (active : List String) (nm sep : String) (r : Expr)
+    (c c1 : Cache) (f : Found) (hnm : (nm == "") = false)
+    (h : refResolve C (m+1) home active (opPath C nm sep) sep c = (.ok (some f), c1)) :
+    evalExpr C (m+2) home active (.alt (.const nm) r sep) c = evalExpr C (m+1) home active r c1 := by
+  unfold opPath at h
+  rw [evalExpr]
+  simp only [const_eval, em_pure, bind, EM.bind, EM.attempt, EM.pure, hnm, Bool.false_eq_true, if_false, h]
+
+/-- ... and when it is not set, or looking it up fails, the result is the empty string -/
+theorem alternative_when_unset (C : ECtx) (m : Nat) (home : Val) (active : List String) (nm sep : String) (r : Expr)
+    (c c1 : Cache) (hnm : (nm == "") = false)
+    (h : refResolve C (m+1) home active (opPath C nm sep) sep c = (.ok none, c1) ∨
+         ∃ e, refResolve C (m+1) home active (opPath C nm sep) sep c = (.err e, c1)) :
+    evalExpr C (m+2) home active (.alt (.const nm) r sep) c = (.ok "", c1) := by
+  unfold opPath at h
+  rw [evalExpr]
+  rcases h with h | ⟨e, h⟩ <;>
+    simp only [const_eval, em_pure, bind, EM.bind, EM.attempt, EM.pure, hnm, Bool.false_eq_true, if_false, h]
+
+/-- `${name:?msg}`: a name that resolves to non-empty text is that text -/
+theorem required_keeps_value (C : ECtx) (m : Nat) (home : Val) (active : List String) (nm sep : String) (r : Expr)
+    (c c1 : Cache) (v : String) (hnm : (nm == "") = false) (hv : (v == "") = false)
+    (h : refEval C (m+1) home active (opPath C nm sep) sep c = (.ok v, c1)) :
+    evalExpr C (m+2) home active (.errx (.const nm) r sep) c = (.ok v, c1) := by
+  unfold opPath at h
+  rw [evalExpr]
+  simp only [const_eval, em_pure, bind, EM.bind, EM.attempt, EM.pure, hnm, Bool.false_eq_true, if_false, h, hv]
+
+/-- `${name:?msg}`: a name whose lookup fails is an error carrying the evaluated message -/
+theorem required_raises_message (C : ECtx) (m : Nat) (home : Val) (active : List String) (nm sep : String) (r : Expr)
+    (c c1 c2 : Cache) (e : Err) (msg : String) (hnm : (nm == "") = false)
+    (h : refEval C (m+1) home active (opPath C nm sep) sep c = (.err e, c1))
+    (hm : evalExpr C (m+1) home active r c1 = (.ok msg, c2)) :
+    evalExpr C (m+2) home active (.errx (.const nm) r sep) c =
+      (.err { reason := .other, typed := false, msg := some msg }, c2) := by
+  unfold opPath at h
+  rw [evalExpr]
+  simp only [const_eval, em_pure, bind, EM.bind, EM.attempt, EM.pure, hnm, Bool.false_eq_true, if_false, h, hm, EM.fail]
+
+end Ucfg.C02
